@@ -67,6 +67,10 @@ pub enum Ctl {
     Pause(bool),
     /// close the master side (the slave sees a hang-up); the peer thread ends
     Close,
+    /// answer (or stop answering) the device attributes request
+    AnswerDa(bool),
+    /// type a key every `every_ms` milliseconds, `count` times
+    Flood { every_ms: u64, count: usize },
 }
 
 pub struct Peer {
@@ -114,6 +118,8 @@ impl Peer {
             let mut rates = if rates.is_empty() { vec![Rate { size: 65536, sleep_us: 0 }] } else { rates };
             let mut k = 0usize;
             let mut paused = false;
+            let mut answer_da = answer_da;
+            let mut flood: Option<(u64, usize, Instant)> = None;
             let mut tail: Vec<u8> = vec![]; // last bytes, to find a request split across reads
             let mut quiet_since: Option<Instant> = None;
             let mut buf = vec![0u8; 1 << 16];
@@ -132,6 +138,14 @@ impl Peer {
                             pa2.store(p, Ordering::SeqCst);
                         }
                         Ctl::Close => return, // `master` is dropped here
+                        Ctl::AnswerDa(a) => answer_da = a,
+                        Ctl::Flood { every_ms, count } => flood = Some((every_ms, count, Instant::now())),
+                    }
+                }
+                if let Some((every, left, at)) = flood {
+                    if left > 0 && Instant::now() >= at {
+                        write_all_fd(fd, b"x");
+                        flood = Some((every, left - 1, Instant::now() + Duration::from_millis(every)));
                     }
                 }
                 if paused {
